@@ -89,7 +89,13 @@ int main(int argc, char **argv){
       grid.finishConstruction();
     } else if (op == "A"){ grid.setAnisotropicRefinement(type_iptotal, 1, 0, arg);
     } else if (op == "Sg"){ grid.setSurplusRefinement(tol, 0, arg);
-    } else if (op == "Sc" || op == "Sf" || op == "Ss"){ grid.setSurplusRefinement(tol, IO::getTypeRefinementString(op == "Sc" ? "classic" : op == "Sf" ? "fds" : "stable"), -1, arg);
+    } else if (op == "Sc" || op == "Sf" || op == "Ss"){
+      PSet want; bool exact = (op == "Sc");
+      if (exact){ // classic criterion: every point proposes its children independently, so the limits only cut the unlimited proposal
+        TasmanianSparseGrid twin(grid); twin.clearLevelLimits(); twin.setSurplusRefinement(tol, refine_classic, -1, none);
+        want = pset(twin.getNeededPoints(), d, true); }
+      grid.setSurplusRefinement(tol, IO::getTypeRefinementString(op == "Sc" ? "classic" : op == "Sf" ? "fds" : "stable"), -1, arg);
+      if (exact) fpsym_check(pset(grid.getNeededPoints(), d, false) == want, (tag + "classic refinement with limits proposes exactly the admissible points of the unlimited proposal (no admissible child is lost)").c_str());
     } else if (op == "Ud" || op == "U"){
       int nd = g.depth + (op == "U" ? 2 : 0);
       PSet before = pset(grid.getLoadedPoints(), d, false);
